@@ -19,6 +19,7 @@ RULE = (
 )
 ASSUMPTIONS = [
     "detections may have one node or every node missing (NaN) in the dedicated jobs (quick: K=2 depth 3; thorough: K=2 depth 4)",
+    "two-trackers-alive jobs: two Tracker objects of one configuration fed every pair of 2-frame (thorough: 3-frame) histories over K=2 in alternation; each must return what it returns alone",
     "animals sit at fixed, well separated positions (no drift) so that the canonical state is small; identity questions are C10's",
     "canonical-state merging assumes the next track() reads only tracker_queue, current_tracks and the new detections; validated in-run on a 1-in-53 subset of merged pairs (both representatives extended by every event must agree) and by replaying a 1-in-11 subset of histories on fresh trackers",
     "bounds: quick depth 4, K=3, window 2, threshold 0, 12 method x matcher x feature configurations; thorough depth 5 (K=3; depth 4 with low-score marks against threshold 0.5) and depth 6 (K=2) over 72 configurations x reductions {mean,max}",
@@ -97,9 +98,51 @@ def explore(part, cfg, k, depth, low, nan=False):
         part.add("fallback_history_states_or_deepcopy")
 
 
+def explore_interleaved(part, cfg, k, depth):
+    """Two Tracker objects of the same configuration alive at once (two videos), fed different histories in
+    alternation: each must behave exactly as when it runs alone (state shared between tracker objects)."""
+    import itertools
+
+    events = T.frame_events(k)
+    cfgkey = core.digest(cfg)
+    hists = list(itertools.product(range(len(events)), repeat=depth))
+
+    def alone(h):
+        trk = T.new_tracker(cfg)
+        obs = []
+        for i, e in enumerate(h):
+            _, out, err = T.step(trk, events[e], frame_idx=i)
+            obs.append((T.observe(events[e], out), err))
+        return obs
+
+    ref = {h: alone(h) for h in hists}
+    for ha in hists:
+        for hb in hists:
+            a, b = T.new_tracker(cfg), T.new_tracker(cfg)
+            part.count()
+            part.transition(2 * depth)
+            key = f"il:{cfgkey}:{ha}:{hb}"
+            part.state(key)
+            if ha != hb:
+                part.nontriv(key)
+            got = []
+            for i in range(depth):
+                _, out, err = T.step(a, events[ha[i]], frame_idx=i)
+                got.append((T.observe(events[ha[i]], out), err))
+                T.step(b, events[hb[i]], frame_idx=i)
+            part.outcome(repr(got))
+            if got != ref[ha]:
+                case = {"cfg": cfg, "interleaved": True, "k": k, "history": [events[e] for e in ha], "other": [events[e] for e in hb]}
+                part.violation(case, f"tracker fed {[events[e] for e in ha]} returns {got} while a second tracker object is fed {[events[e] for e in hb]} in alternation, but {ref[ha]} when it runs alone")
+    part.sample({"cfg": cfg, "interleaved": True, "pairs": len(hists) ** 2}, True)
+
+
 def work(part, shard):
     for job in shard:
-        explore(part, *job)
+        if job[0] == "interleaved":
+            explore_interleaved(part, *job[1:])
+        else:
+            explore(part, *job)
 
 
 def run(ctx):
@@ -108,6 +151,7 @@ def run(ctx):
         cfgs = T.all_configs(windows=[2], thresholds=[0.0])
         jobs = [(c, 3, 4, False) for c in cfgs]
         jobs += [(c, 2, 3, False, True) for c in cfgs]  # + detections with one / all nodes missing
+        jobs += [("interleaved", c, 2, 2) for c in cfgs]  # two tracker objects alive, all pairs of 2-frame histories
         ctx.bounds = {"depth": 4, "K": 3, "configs": len(cfgs), "events_per_frame": 16}
     else:
         cfgs = T.all_configs(windows=[1, 2, 3], thresholds=[0.0, 0.5], reductions=("mean", "max"))
@@ -118,12 +162,29 @@ def run(ctx):
         jobs += [(c, 2, 6, c["instance_score_threshold"] > 0) for c in cfgs]
         # detections with missing nodes: one node NaN ('p') or every node NaN ('n')
         jobs += [(c, 2, 4, False, True) for c in cfgs if c["instance_score_threshold"] == 0]
+        jobs += [("interleaved", c, 2, 3) for c in cfgs if c["scoring_reduction"] == "mean" and c["window_size"] == 2]
         ctx.bounds = {"depth_K3": "5 (reduction mean) / 4 (reduction max)", "depth_K3_with_low_score_marks": 4, "depth_K2": 6, "depth_K2_with_missing_nodes": 4, "configs": len(cfgs), "events_per_frame": "16 (49 with low-score marks when threshold 0.5)"}
     jobs = core.rotate(jobs, ctx.seed)
     core.pmap(ctx, work, [[j] for j in jobs])
 
 
 def replay(case):
+    if case.get("interleaved"):
+        cfg = case["cfg"]
+        ha = [[tuple(x) for x in ev] for ev in case["history"]]
+        hb = [[tuple(x) for x in ev] for ev in case["other"]]
+        solo = T.new_tracker(cfg)
+        ref = []
+        for i, ev in enumerate(ha):
+            _, out, err = T.step(solo, ev, frame_idx=i)
+            ref.append((T.observe(ev, out), err))
+        a, b = T.new_tracker(cfg), T.new_tracker(cfg)
+        got = []
+        for i, ev in enumerate(ha):
+            _, out, err = T.step(a, ev, frame_idx=i)
+            got.append((T.observe(ev, out), err))
+            T.step(b, hb[i], frame_idx=i)
+        return {"violates": got != ref, "alone": ref, "interleaved": got}
     if case.get("harness"):
         return {"violates": True, "note": "harness self-check failure", "case": case}
     trk = T.new_tracker(case["cfg"])
